@@ -476,8 +476,11 @@ pub fn check_main(args: &[String]) -> i32 {
         },
         "assumptions": assumptions(&prop),
     });
-    std::fs::create_dir_all(format!("{VERIF_DIR}/evidence")).ok();
-    std::fs::write(format!("{VERIF_DIR}/evidence/{prop}.json"), serde_json::to_string_pretty(&ev).unwrap()).expect("write evidence");
+    // (triage sweeps with other seeds or run counts pass --no-evidence)
+    if !args.iter().any(|a| a == "--no-evidence") {
+        std::fs::create_dir_all(format!("{VERIF_DIR}/evidence")).ok();
+        std::fs::write(format!("{VERIF_DIR}/evidence/{prop}.json"), serde_json::to_string_pretty(&ev).unwrap()).expect("write evidence");
+    }
     println!(
         "{} runs ({} executions, {} distinct non-trivial, {} distinct schedules) in {:.1}s; violations: {}",
         total.runs, total.executions, sigs.len(), shs.len(), wall_s, new_violations.len()
